@@ -186,7 +186,9 @@ def py_eq(I, a, b):
             if a.cls is not b.cls:
                 return False
             conds = []
-            for (n, _, _, _) in a.cls.dataclass_fields():
+            for (n, _, dflt, _) in a.cls.dataclass_fields():
+                if dflt is not None and "compare=False" in ast.unparse(dflt).replace(" ", ""):
+                    continue
                 if n in a.fields and n in b.fields:
                     conds.append(py_eq(I, a.fields[n], b.fields[n]))
                 elif (n in a.fields) != (n in b.fields):
@@ -556,6 +558,8 @@ def getitem(I, o, k, node):
         if j == len(members):
             raise PyRaise(ExcValue("KeyError", (k,)))
         return EnumVal(o.info.find_class_attr(members[j])[0], members[j])
+    if isinstance(o, SObj) and isinstance(o.cls, str) and o.cls in getattr(I.E, "external_getitem", {}):
+        return I.E.external_getitem[o.cls](I, [o, k], {})
     if isinstance(o, SObj) and o.ghost.get("closed"):
         raise PyRaise(ExcValue("TypeError", (f"'{o.cls}' object is not subscriptable",)))
     if isinstance(o, SObj) and o.cls == "re.Match":
